@@ -55,7 +55,13 @@ class SLock:
         self.owner = tid
         self.count += 1
         if self.count == 1:
-            s.acquire_log.append(tid)
+            # the linearisation order = outermost acquisitions of the lock the SHARED cache currently carries
+            # (locks of thread-private copies / update() arguments are scheduler-aware too, but not logged)
+            c = s.cache
+            if c is None or getattr(c, '_lock', None) is self:
+                s.acquire_log.append(tid)
+            else:
+                s.foreign_acquires += 1
         return self
 
     def __exit__(self, *a):
@@ -90,11 +96,13 @@ class Sched:
         self.lockset_violations = []   # (tid, function) state helper entered without the lock
         self.max_steps = max_steps
         self.abort = False
+        self.woken = [False] * nthreads
         self.deadlock = False
         self.step_limit = False
         self.step = 0
         self.cache_lock = None
         self.cache = None
+        self.foreign_acquires = 0
         self.base_cls = dict
         self.where = [None] * nthreads  # per thread: names of the cacheutils frames on its stack at its pending
         #                                 instruction (innermost first); lets a chooser pre-empt INSIDE a given method
@@ -110,28 +118,38 @@ class Sched:
         return [i for i in range(self.n) if not self.done[i]
                 and (self.blocked[i] is None or self.blocked[i].owner in (None, i))]
 
-    def _abort_all(self, me):
-        self.abort = True
+    def _wake_one(self, me):
+        """abort mode: the threads are unwound ONE AT A TIME (each raises StepLimit at its scheduling point, unwinds,
+        finishes and wakes the next) - never two workers running at once, not even while a run is torn down:
+        CPython 3.12 can crash when one thread switches tracing off while another executes instrumented code."""
         for i in range(self.n):
-            if i != me and not self.done[i]:
+            if i != me and not self.done[i] and not self.woken[i]:
+                self.woken[i] = True
                 self.sems[i].release()
+                return
+
+    def _abort_all(self, me, running=False):
+        self.abort = True
+        if not running:         # a running worker unwinds first and wakes the next one when it has finished
+            self._wake_one(me)
 
     def dispatch(self, tid, finished=False):
         if self.abort:
             if finished:
+                self._wake_one(tid)
                 return
             raise StepLimit()
         runnable = self.runnable()
         if not runnable:
             if not all(self.done):
                 self.deadlock = True
-                self._abort_all(tid)
+                self._abort_all(tid, running=not finished)
             if finished:
                 return
             raise StepLimit()
         if self.step >= self.max_steps:
             self.step_limit = True
-            self._abort_all(tid)
+            self._abort_all(tid, running=not finished)
             if finished:
                 return
             raise StepLimit()
@@ -174,9 +192,10 @@ class Sched:
                         and isinstance(slf, self.base_cls):
                     return None     # a method of ANOTHER cache (a thread-private copy / update() argument): its
                     #                 instructions are not pre-emption points of the shared cache's operations
-                if co.co_name in self.state_funcs and self.cache_lock is not None and \
+                if co.co_name in self.state_funcs and self.cache is not None and \
                         frame.f_locals.get('self') is self.cache:     # helpers of the SHARED cache only
-                    if self.cache_lock.owner != tid:
+                    lk = getattr(self.cache, '_lock', None)           # the lock the cache carries NOW
+                    if getattr(lk, 'owner', tid) != tid:
                         self.lockset_violations.append((tid, co.co_name))
                 frame.f_trace_opcodes = True
                 return local
@@ -195,48 +214,60 @@ def run(cu, programs, choose, make_cache, max_steps=200000, state_funcs=None):
     if hasattr(choose, 'attach'):      # choosers that look at the threads' positions (focus schedules)
         choose.attach(s)
     old_rlock = cu.RLock
-    cu.RLock = SLock
+    cu.RLock = SLock            # for the WHOLE run: a lock the code creates while the threads are running (a private
+    #                             copy's, or - a defect - a replacement of the shared cache's) must be scheduler-aware
+    #                             too, otherwise a worker blocks in C on a real lock while it holds the baton
     try:
         cache = make_cache()
-    finally:
-        cu.RLock = old_rlock
-    s.cache_lock = getattr(cache, '_lock', None)
-    s.cache = cache
-    s.base_cls = getattr(cu, 'LRI', dict)
-    results = [[] for _ in range(n)]
-    op_log = []   # (tid, op index) in completion order
+        s.cache_lock = getattr(cache, '_lock', None)
+        s.cache = cache
+        s.base_cls = getattr(cu, 'LRI', dict)
+        results = [[] for _ in range(n)]
+        op_log = []   # (tid, op index) in completion order
 
-    def worker(tid):
-        s.sems[tid].acquire()
-        sys.settrace(s.tracer(tid))
-        try:
-            for oi, op in enumerate(programs[tid]):
-                try:
-                    results[tid].append(['ok', op(cache)])
-                except StepLimit:
-                    results[tid].append(['exc', 'StepLimit'])
-                    break
-                except Exception as e:  # noqa
-                    results[tid].append(['exc', type(e).__name__])
-                op_log.append((tid, oi))
-        finally:
-            sys.settrace(None)
-            s.done[tid] = True
-            s.dispatch(tid, finished=True)      # hand the baton on
+        def worker(tid):
+            s.sems[tid].acquire()
+            try:
+                if s.abort:
+                    return
+                sys.settrace(s.tracer(tid))
+                for oi, op in enumerate(programs[tid]):
+                    try:
+                        results[tid].append(['ok', op(cache)])
+                    except StepLimit:
+                        results[tid].append(['exc', 'StepLimit'])
+                        break
+                    except Exception as e:  # noqa
+                        results[tid].append(['exc', type(e).__name__])
+                    op_log.append((tid, oi))
+            finally:
+                sys.settrace(None)
+                s.done[tid] = True
+                s.dispatch(tid, finished=True)      # hand the baton on
+                s.main.release()
 
-    ths = []
-    for i in range(n):
-        t = threading.Thread(target=worker, args=(i,), daemon=True)
-        t.bv_tid = i
-        t.start()
-        ths.append(t)
-    s.dispatch(None, finished=True)             # the first choice; from here on the workers schedule themselves
-    for t in ths:
-        t.join(timeout=20)
-    if any(t.is_alive() for t in ths):
-        s._abort_all(None)
+        ths = []
+        for i in range(n):
+            t = threading.Thread(target=worker, args=(i,), daemon=True)
+            t.bv_tid = i
+            t.start()
+            ths.append(t)
+        s.dispatch(None, finished=True)             # the first choice; from here on the workers schedule themselves
+        stuck = False
+        for _ in range(n):
+            if not s.main.acquire(timeout=60):      # a worker is blocked outside the scheduler's control
+                stuck = True
+                break
+        if stuck:
+            s._abort_all(None)
+            for _ in range(n):
+                s.main.acquire(timeout=5)
         for t in ths:
             t.join(timeout=5)
+        stuck = stuck or any(t.is_alive() for t in ths)
+    finally:
+        cu.RLock = old_rlock
     return {'cache': cache, 'results': results, 'steps': s.step, 'schedule': s.choices,
             'acquire_log': s.acquire_log, 'lockset_violations': s.lockset_violations,
-            'deadlock': s.deadlock, 'step_limit': s.step_limit, 'op_log': op_log}
+            'deadlock': s.deadlock, 'step_limit': s.step_limit, 'op_log': op_log,
+            'stuck': stuck, 'foreign_acquires': s.foreign_acquires}
